@@ -70,11 +70,14 @@ pub fn final_check(s: &In) -> Result<(), Violation> {
                         format!("PUBLISH #{i} must resolve to {t:?} but the handler saw {seen:?}"),
                     ));
                 }
-                if s.cfg.ep.router && s.cfg.ep.role == Role::Server {
+                if s.cfg.ep.router {
+                    // clients: topics without a resource go to the protocol service (no tag) - seeded change C17_r5
+                    // was in the client's own router, which only the server-side check looked at before
                     let want = match t.as_str() {
                         "a" => "A",
                         "b" => "B",
-                        _ => "D",
+                        _ if s.cfg.ep.role == Role::Server => "D",
+                        _ => "",
                     };
                     if tag != want {
                         return Err(viol(s, "wrong-route", format!("alias {alias:?} topic {topic:?}"), format!("PUBLISH #{i} resolves to {t:?} and must be routed to {want} but went to {tag}")));
